@@ -12,6 +12,8 @@ for d in sorted(glob.glob(os.path.join(os.path.dirname(__file__), "..", "seeded"
                 title = ln.strip().lstrip("# ").strip()
                 break
     res = ", ".join(f"{k}: {'caught' if v.get('exit') == 1 else 'MISSED (exit %s)' % v.get('exit')}" for k, v in m["checks"].items() if isinstance(v, dict))
+    if "not_caught" in m:
+        res += " (NOT caught: outside the modelled domain, see meta.json)"
     if "superseded" in m:
         res += " (superseded by a later fix, see meta.json)"
     rows.append((m["id"], title[:110].replace("|", "/"), m["files_changed"].strip(), res))
